@@ -837,6 +837,36 @@ def check_creds_mirror(ctx, tool):
                     d.func, ast.Name) and d.func.id == 'dict':
                 mine |= {k.arg for k in d.keywords if k.arg}
     F = ctx.where(tool.module, tool.node)
+    # the role list the checks see is the token's, name by name: a generic
+    # check (`roles:Member`) compares the names as they are spelled
+    seen_roles = set()
+    for p in t.paths:
+        for e in p.events:
+            if not (e.kind == 'store' and isinstance(
+                    e.node, ast.Subscript) and is_const(
+                        e.node.slice, 'roles')):
+                continue
+            v = t.expand(e.value) if e.value is not None else None
+            if not isinstance(v, (ast.ListComp, ast.GeneratorExp)) or len(
+                    v.generators) != 1 or (e.line, U(v)) in seen_roles:
+                continue
+            seen_roles.add((e.line, U(v)))
+            g0 = v.generators[0]
+            plain = isinstance(v.elt, ast.Subscript) and U(
+                v.elt.value) == U(g0.target) and is_const(
+                    v.elt.slice, 'name') and not g0.ifs
+            changed = [c for c in ast.walk(v.elt) if isinstance(c, ast.Call)]
+            if plain or changed or g0.ifs:
+                ctx.ob('C19.CREDS', plain, '%s:%d' % (F.split(':')[0],
+                                                      e.line), tool.qual,
+                       'role names ' + U(v)[:60],
+                       'the token\'s role names, as spelled there' if plain
+                       else 'the checker evaluates with role names that are '
+                       'not the token\'s own (%s): a generic check on the '
+                       'role list (`roles:Member`) compares them as spelled '
+                       'and is decided differently by the tool and by '
+                       'Enforcer.enforce' % (U(changed[0])[:40] if changed
+                                             else 'filtered'))
     for key, (line, src) in sorted(lib.items()):
         ok = key in mine
         ctx.ob('C19.CREDS', ok, F, tool.qual,
